@@ -243,6 +243,31 @@ def _install_format_value_repr():
     oi.FormatValueInterceptor.trace_op = trace_op
 
 
+_MASK_TEMPLATES = {}
+
+
+def _install_fast_charmask():
+    """CharMask.smt_matches rebuilt a several-hundred-term Or for \\d / \\w on every call
+    (measured: 80% of the time of the C03 harness).  Build it once per mask over a
+    placeholder and substitute -- same formula, no semantic change."""
+    import z3
+    from crosshair import unicode_categories as uc
+    stock = uc.CharMask.smt_matches
+    ph = z3.Int("vf!cp")
+
+    def smt_matches(self, smt_ch):
+        if len(self.parts) <= 6:
+            return stock(self, smt_ch)
+        key = tuple(self.parts)
+        tpl = _MASK_TEMPLATES.get(key)
+        if tpl is None:
+            tpl = stock(self, ph)
+            _MASK_TEMPLATES[key] = tpl
+        return z3.substitute(tpl, (ph, smt_ch))
+
+    uc.CharMask.smt_matches = smt_matches
+
+
 def apply():
     global _APPLIED
     if _APPLIED:
@@ -255,6 +280,7 @@ def apply():
     core._PATCH_REGISTRATIONS[re.Pattern.search] = _search
     core._PATCH_REGISTRATIONS[str.__mod__] = _percent_format
     _install_format_value_repr()
+    _install_fast_charmask()
     try:
         register_patch(sys.intern, _intern)
     except Exception:
@@ -262,6 +288,7 @@ def apply():
 
 
 REPAIRS = [
+    "CharMask.smt_matches memoised per mask via z3.substitute (performance only; identical formula)",
     "regex `$` (non-MULTILINE) modelled as (?=\\n?\\Z) instead of \\Z",
     "re.Pattern.findall built on the symbolic finditer (stock realises the subject)",
     "re.Pattern.search also tries the empty match at end of string",
